@@ -25,9 +25,9 @@ type placedWorkload struct {
 }
 
 type reallocCase struct {
-	Node     *nodeState       `json:"node"`      // node state before the re-allocation (all workloads placed)
-	Workload placedWorkload   `json:"workload"`  // the workload being re-allocated
-	Others   []placedWorkload `json:"others"`    // the other workloads on the node (context only)
+	Node     *nodeState       `json:"node"`     // node state before the re-allocation (all workloads placed)
+	Workload placedWorkload   `json:"workload"` // the workload being re-allocated
+	Others   []placedWorkload `json:"others"`   // the other workloads on the node (context only)
 	MemDelta int64            `json:"mem_delta"`
 }
 
